@@ -321,6 +321,8 @@ def run(ck, w):
         ck.ok(o)
 
     _append_only(ck, w)
+    _content_path(ck, w)
+    _walk_does_not_follow(ck, w)
 
     # ---- 6. every Ok path records an entry ------------------------------------------------------------------------
     for fn in ("backup::BackupWriter::copy_dir", "backup::BackupWriter::copy_symlink", "backup::BackupWriter::copy_file"):
@@ -377,3 +379,139 @@ def _append_only(ck, w):
             ck.fail(o, b.root, m, "%s: entries already accepted for this hunk would be lost" % m, site)
     else:
         ck.ok(o, "%d reset site(s), all in drain / finish_hunk" % n, instances=n)
+
+
+NARROWING = re.compile(r"Iterator::(rev|skip|take|step_by|filter|take_while|skip_while|find|nth|last|peekable|chain|zip|dedup)$|<impl \[T\]>::(first|last|split_at|split_first|split_last|get)$|Vec::<T, A>::(truncate|pop|remove|swap_remove|drain|retain|dedup\w*)$")
+
+
+def _content_path(ck, w):
+    """C01.7/8: the content of a file is written block by block in address order, and stored block by block in read order."""
+    lib = w.lib
+    rf = w.body("restore::restore_file")
+    o = ck.ob("C01.7", "restore_file writes, for each address of the entry in order, exactly the bytes read for that address, then flushes")
+    problems = []
+    nxt = [e for e in rf.events if e.bb in rf.live and e.name.endswith("Iterator>::next") and "Iter<" in e.name]
+    ra = rules.creators_of(rf, "blockdir::BlockDir::read_address")
+    wa = [e for e in rf.events if e.bb in rf.live and e.name.endswith("Write::write_all")]
+    fl = [e for e in rf.events if e.bb in rf.live and e.name.endswith("Write>::flush")]
+    narrowing = [e for e in rf.events if e.bb in rf.live and NARROWING.search(e.name)]
+    if narrowing:
+        problems.append("the address list is narrowed or reordered by %s" % narrowing[0].name.split("::")[-1])
+    if len(ra) != 1 or len(wa) != 1:
+        problems.append("expected one read_address and one write_all per address (found %d / %d)" % (len(ra), len(wa)))
+    else:
+        it_src = flow.origins_x(lib, rf, ra[0].args[1], through_calls=[r"Iterator>::next$", r"IntoIterator>?::into_iter$"])
+        if not any(x[0] in ("param", "upvar") and x[2] and x[2][-1] == "addrs" for x in it_src):
+            problems.append("read_address is not given the entry's addresses in order: %s" % flow.origin_summary(it_src))
+        wsrc = flow.origins_x(lib, rf, wa[0].args[1], through_calls=[r"Try>?::branch$", r"Result::<T, E>::map_err$"])
+        if "blockdir::BlockDir::read_address" not in flow.origin_calls(wsrc):
+            problems.append("write_all does not write the bytes read for the address: %s" % flow.origin_summary(wsrc))
+        wdst = flow.origins_x(lib, rf, wa[0].args[0], through_calls=[r"Try>?::branch$", r"Result::<T, E>::map_err$"])
+        if not any(c.endswith("File::create") for c in flow.origin_calls(wdst)):
+            problems.append("write_all does not write to the created file")
+        # the write follows the read in the same iteration: read dominates write
+        polls = flow.await_poll(rf, ra[0])
+        if not polls or not rf.must_pass_nodes({polls[0].bb}, wa[0].bb):
+            problems.append("a write happens without a preceding read of that address")
+        # every loop iteration that read successfully writes before moving on
+        ok_e, _, _ = rules.success_edges_union(rf, polls)
+        if nxt and ok_e:
+            for (u, v) in ok_e:
+                if nxt[0].bb in rf.reachable(v, removed_nodes={wa[0].bb}):
+                    problems.append("an address can be skipped after it was read")
+    oks = [bb for bb, j, s_ in rules.agg_sites(rf, "std::result::Result", "Ok") if s_["pl"]["l"] == 0]
+    if not fl or not all(rf.must_pass_nodes({e.bb for e in fl}, bb) for bb in oks):
+        problems.append("Ok is returned without flushing the file")
+    if problems:
+        for m in sorted(set(problems)):
+            ck.fail(o, rf.name, m, m)
+    else:
+        ck.ok(o, instances=3)
+    sf = w.body("backup::store_file_content")
+    o = ck.ob("C01.8", "store_file_content records one address for every non-empty buffer it read, in read order, and returns them all")
+    problems = []
+    push = [e for e in sf.events if e.bb in sf.live and e.name.endswith("Vec::<T, A>::push")]
+    rd = [e for e in sf.events if e.bb in sf.live and e.name == "io::read_with_retries"]
+    emp = [e for e in sf.events if e.bb in sf.live and e.name == "bytes::BytesMut::is_empty"]
+    narrowing = [e for e in sf.events if e.bb in sf.live and NARROWING.search(e.name)]
+    if narrowing:
+        problems.append("the address list is narrowed or reordered by %s" % narrowing[0].name.split("::")[-1])
+    if len(push) != 1 or len(rd) != 1 or len(emp) != 1:
+        problems.append("loop shape changed (push=%d read=%d is_empty=%d)" % (len(push), len(rd), len(emp)))
+    else:
+        ne = rules.bool_switch_edges(sf, emp[0], False)
+        for (u, v) in ne:
+            if rd[0].bb in sf.reachable(v, removed_nodes={push[0].bb}):
+                # may legitimately leave through an error return, but must not loop again without pushing
+                problems.append("a non-empty buffer can be skipped without recording its address")
+        arg = flow.origins_x(lib, sf, push[0].args[1])
+        if not any(x[0] == "agg" and str(x[1]).endswith("Address") for x in arg) and "blockdir::BlockDir::store_or_deduplicate" not in flow.origin_calls(arg):
+            problems.append("pushed value is not the Address of the stored buffer")
+        oks = [(bb, s_) for bb, j, s_ in rules.agg_sites(sf, "std::result::Result", "Ok") if s_["pl"]["l"] == 0]
+        for bb, s_ in oks:
+            ro = flow.origins_x(lib, sf, s_["rv"]["ops"][0])
+            po = flow.origins_x(lib, sf, push[0].args[0])
+            if not ({x for x in ro if x[0] == "call"} & {x for x in po if x[0] == "call"}):
+                problems.append("the returned vector is not the one the addresses were pushed to")
+        mb = flow.origins_x(lib, sf, rd[0].args[0])
+        if not any(x[0] in ("param", "upvar") and x[1] == "max_block_size" for x in mb):
+            problems.append("blocks are not read in max_block_size units")
+    if problems:
+        for m in sorted(set(problems)):
+            ck.fail(o, sf.name, m, m)
+    else:
+        ck.ok(o, instances=3)
+
+
+FOLLOWING_STAT = re.compile(r"^std::path::Path::(is_dir|is_file|exists|try_exists|metadata|canonicalize|is_symlink)$|^std::fs::(metadata|canonicalize|exists)$"
+                            r"|^std::path::PathBuf::(is_dir|is_file|exists)$|^tokio::fs::(metadata|canonicalize|try_exists)$")
+
+
+def _walk_does_not_follow(ck, w):
+    """C01.9: the source walk classifies what it finds without following symlinks."""
+    lib = w.lib
+    o = ck.ob("C01.9", "the source walk stats entries without following symlinks (DirEntry::file_type / DirEntry::metadata / symlink_metadata only)")
+    n = 0
+    bad = []
+    nofollow = re.compile(r"^std::fs::DirEntry::(file_type|metadata)$|^std::fs::symlink_metadata$")
+    for b in rules.user_bodies(lib):
+        if b.file != "src/source.rs" and not b.file.startswith("src/source/"):
+            continue
+        for e in b.events:
+            if e.bb not in b.live:
+                continue
+            if nofollow.search(e.name):
+                n += 1
+            if FOLLOWING_STAT.search(e.name) and e.name != "std::path::Path::is_symlink":
+                bad.append((b, e))
+    ck.floor("C01.9.n", "no-follow stat calls in the source walk", n, 3)
+    if bad:
+        for b, e in bad:
+            ck.fail(o, b.root, "%s follows symlinks" % e.name.split("::")[-1],
+                    "%s resolves symlinks: a link to a directory is then walked (or classified) as the directory it points to" % e.name, e.site())
+    else:
+        ck.ok(o, "%d no-follow stat call(s), no following one" % n, instances=n)
+    # directories to descend into are chosen from the no-follow file type
+    vd = w.raw("source::Iter::visit_next_directory")
+    o = ck.ob("C01.9b", "a child is queued for descent only if its no-follow file type is a directory")
+    pushes = [e for e in vd.events if e.bb in vd.live and e.name.endswith("Vec::<T, A>::push")]
+    sub = []
+    for e in pushes:
+        l = flow.operand_local(e.args[0])
+        for (bb, idx, kind, payload) in vd.defs.get(l, []):
+            if kind == "assign" and payload["rv"]["rk"] == "ref" and vd.local_names.get(payload["rv"]["pl"]["l"]) == "subdir_apaths":
+                sub.append(e)
+    isd = [e for e in vd.events if e.bb in vd.live and e.name == "std::fs::FileType::is_dir"]
+    good = bool(sub) and bool(isd)
+    if good:
+        ed = set()
+        for e in isd:
+            src = flow.origins(vd, e.args[0])
+            if any(x[0] == "call" and x[1] == "std::fs::DirEntry::file_type" for x in src):
+                ed |= rules.bool_switch_edges(vd, e, True)
+        if not ed or not all(vd.must_pass_edges(ed, e.bb) for e in sub):
+            good = False
+    if good:
+        ck.ok(o)
+    else:
+        ck.fail(o, vd.name, "descent not decided by the no-follow file type", "subdir_apaths.push is not behind DirEntry::file_type().is_dir()")
